@@ -100,6 +100,45 @@ func (C16Funcs) ValM() int   { return 4 }
 func (*C16Funcs) PtrM() int  { return 5 }
 func (f C16Funcs) Arg(n int) int { return n + f.V }
 
+// method / field clashes where the METHOD is the shallower one
+type C16RateIn struct{ Rate int }
+type C16RateIn2 struct{ Rate float64 }
+type C16MethodOverField struct { // method Rate at depth 0, field Rate promoted from depth 1: Go resolves the method
+	C16RateIn
+	Z int
+}
+
+func (C16MethodOverField) Rate() int { return 10 }
+
+type C16MethodOverAmbig struct { // two embedded structs both have a field Rate (ambiguous among themselves), the method wins
+	C16RateIn
+	C16RateIn2
+}
+
+func (C16MethodOverAmbig) Rate() int { return 11 }
+
+type C16MapClash map[string]int // a key equal to the method name
+
+func (C16MapClash) Rate() int { return 12 }
+
+// two distinct types with the same printed name (declared in different functions) and different fields
+func c16LocalA() interface{} {
+	type Item struct{ Name string }
+	type Holder struct {
+		Item  Item
+		Items []Item
+	}
+	return Holder{Item: Item{Name: "n"}, Items: []Item{{Name: "m"}}}
+}
+func c16LocalB() interface{} {
+	type Item struct{ Title int }
+	type Holder struct {
+		Item  Item
+		Items []Item
+	}
+	return Holder{Item: Item{Title: 3}, Items: []Item{{Title: 4}}}
+}
+
 type C16Map map[string]int
 
 func (C16Map) MapM() int { return 6 }
@@ -132,6 +171,9 @@ func c16Catalogue() map[string]interface{} {
 		"Funcs": fs, "*Funcs": &fs, "Map": wrap.Mp, "Wrap": wrap, "*Wrap": &wrap,
 		"map[string]interface{}": map[string]interface{}{"A": 1, "fn": func() int { return 1 }, "Nested": wrap.SA, "PNested": &wrap.Dp, "nilv": nil},
 		"map[string]int":         map[string]int{"A": 1, "b": 2},
+		"MethodOverField": C16MethodOverField{C16RateIn: C16RateIn{Rate: 1}}, "*MethodOverField": &C16MethodOverField{},
+		"MethodOverAmbig": C16MethodOverAmbig{}, "MapClash": C16MapClash{"Rate": 5, "x": 1},
+		"LocalA": c16LocalA(), "LocalB": c16LocalB(), "LocalA-again": c16LocalA(),
 	}
 }
 
@@ -284,6 +326,51 @@ func c16AllNames(t reflect.Type, out map[string]bool, depth int) {
 			c16AllNames(t.Field(i).Type, out, depth+1)
 		}
 	}
+}
+
+// c16MethodDepth: embedding depth at which the method set of t gets the method (0 = declared on t itself).
+func c16MethodDepth(t reflect.Type, name string) int {
+	st := t
+	if st.Kind() == reflect.Ptr {
+		st = st.Elem()
+	}
+	if st.Kind() != reflect.Struct {
+		return 0
+	}
+	best := -1
+	for i := 0; i < st.NumField(); i++ {
+		f := st.Field(i)
+		if !f.Anonymous {
+			continue
+		}
+		for _, et := range []reflect.Type{f.Type, reflect.PtrTo(f.Type)} {
+			if f.Type.Kind() == reflect.Ptr && et != f.Type {
+				continue
+			}
+			if _, ok := et.MethodByName(name); ok {
+				d := 1 + c16MethodDepth(f.Type, name)
+				if best < 0 || d < best {
+					best = d
+				}
+			}
+		}
+	}
+	if best < 0 {
+		return 0
+	}
+	return best
+}
+
+// c16FieldDepth: embedding depth of the field Go resolves name to.
+func c16FieldDepth(t reflect.Type, name string) int {
+	st := t
+	if st.Kind() == reflect.Ptr {
+		st = st.Elem()
+	}
+	if f, ok := st.FieldByName(name); ok {
+		return len(f.Index) - 1
+	}
+	return 1 << 20
 }
 
 func exported(name string) bool {
@@ -449,7 +536,8 @@ func judgeC16(c *core.Case, cfg *core.Config) core.Verdict {
 				mustAccept = false // called without arguments here: arity error is a legitimate rejection
 			}
 			if e.goMethod && e.goField {
-				mustAccept = false
+				// both a method and a field of that name exist: the shallower one is what Go selects
+				mustAccept = c16MethodDepth(stType, name) < c16FieldDepth(stType, name) && e.mtype.NumIn() <= 1
 			}
 		} else {
 			mustAccept = e.goField && exported(name) && !e.goMethod
